@@ -1,0 +1,26 @@
+//go:build verif
+
+package heur
+
+import (
+	"hash"
+	"unsafe"
+)
+
+// VerifDigest feeds the four history tables into h (build tag verif).
+func (mr *MoveRanker) VerifDigest(h hash.Hash) {
+	h.Write(unsafe.Slice((*byte)(unsafe.Pointer(&mr.history.data)), unsafe.Sizeof(mr.history.data)))
+	h.Write(unsafe.Slice((*byte)(unsafe.Pointer(&mr.captHist.data)), unsafe.Sizeof(mr.captHist.data)))
+	for _, c := range mr.continuations {
+		h.Write(unsafe.Slice((*byte)(unsafe.Pointer(&c.data)), unsafe.Sizeof(c.data)))
+	}
+}
+
+// VerifCopyFrom makes the tables of mr exact copies of those of src.
+func (mr *MoveRanker) VerifCopyFrom(src *MoveRanker) {
+	mr.history.data = src.history.data
+	mr.captHist.data = src.captHist.data
+	for i := range mr.continuations {
+		mr.continuations[i].data = src.continuations[i].data
+	}
+}
